@@ -1,4 +1,6 @@
 import Tyme.Model.Cache
+import Tyme.Model.ObjMemo
+import Tyme.Model.Containers
 import Tyme.Model.Lunar
 import Tyme.Model.RealEph
 import Tyme.Driver.Util
@@ -47,14 +49,62 @@ def runHist (args : List String) (out : IO.FS.Stream) : IO Unit := do
     histLoop (IO.FS.Stream.ofHandle h) out []
   | _ => IO.eprintln "usage: enum c10.hist <file>"
 
+/-! ### per-object memo histories (`c10.objhist`): the same pseudo-random history the harness runs on one LunarHour /
+LunarDay value, run on the memo model with abstract views, compared with the memo-free run -/
+
+def xorshift (s : UInt64) : UInt64 :=
+  let s := s ^^^ (s <<< 13)
+  let s := s ^^^ (s >>> 7)
+  s ^^^ (s <<< 17)
+
+def stepsTable : List Int := [1, -1, 2, -2, 3, 5, -5, 6, 11, 12, -12, 13, 40, -700]
+
+/-- the history generator of harness/src/p10.rs (`c10.objhist`), same constants -/
+def genOps (nq : Nat) : Nat → UInt64 → List ObjMemo.Op
+  | 0, _ => []
+  | n + 1, st =>
+    let r := xorshift st
+    let kind := (r % 10).toNat
+    let sel := (r >>> 8).toNat
+    let op : ObjMemo.Op :=
+      if kind < 5 then .get (sel % nq)
+      else if kind < 9 then .next (stepsTable.getD (sel % 14) 0)
+      else .clone
+    op :: genOps nq n r
+
+/-- model answer: run the memo model (abstract views: view i a = (i, a); stepping adds n) and the memo-free reference -/
+def objHist (kind seed len : Int) : String :=
+  let st : UInt64 := (UInt64.ofNat seed.toNat) * 0x9E3779B97F4A7C15 ||| 1
+  let l := if len < 1 then 1 else if len > 200 then 200 else len.toNat
+  let ops := genOps (if kind = 0 then 6 else 5) l st
+  let view : Nat → Int → Nat × Int := fun i a => (i, a)
+  let stepA : Int → Int → Int := fun a n => a + n
+  let a := (ObjMemo.run view stepA (ObjMemo.fresh 0) ops).2
+  let b := (ObjMemo.pureRun view stepA 0 ops).2
+  if a == b then "ok" else "DIFF (memo model)"
+
+def objHistOp (a : List Int) : Option (Option String) :=
+  match a with
+  | [kind, seed, len, y, m, d, h, mi, s] =>
+    if kind = 0 then some ((Cont.lunarHourNew E y m d h mi s).map fun _ => objHist kind seed len)
+    else if kind = 1 then some ((Lunar.dayNew E y m d).map fun _ => objHist kind seed len)
+    else some none
+  | _ => none
+
 def execOp (op : String) (a : List Int) : Option (Option String) :=
   match op, a with
   | "cache.reset", [] => some (some "ok")
+  | "c10.objhist", _ => objHistOp a
   | _, _ => none
 
+/-- spec: the answer of every query is a function of the value's numbers alone, so a history never shows a difference -/
 def specOp (op : String) (a : List Int) : Option (Option String) :=
   match op, a with
   | "cache.reset", [] => some (some "ok")
+  | "c10.objhist", [kind, _, _, y, m, d, h, mi, s] =>
+    if kind = 0 then some ((Cont.lunarHourNew E y m d h mi s).map fun _ => "ok")
+    else if kind = 1 then some ((Lunar.dayNew E y m d).map fun _ => "ok")
+    else some none
   | _, _ => none
 
 def runEnum (name : String) (args : List String) (out : IO.FS.Stream) : Option (IO Unit) :=
